@@ -127,6 +127,11 @@ pub struct Dynamic {
     /// SYMTABNO
     #[serde(default)]
     pub mips_got: Option<MipsGot>,
+    /// the DT_NEEDED entries are spread among the other tags of .dynamic instead of leading it
+    /// (the ELF specification gives the relative order of DT_NEEDED entries a meaning, not their
+    /// position among the other tags)
+    #[serde(default)]
+    pub needed_spread: bool,
 }
 
 #[derive(Clone, Debug, Serialize, Deserialize)]
@@ -936,17 +941,40 @@ pub fn build(img: &Image) -> Option<Built> {
                         enc.word(b, t);
                         enc.word(b, v);
                     };
-                    for o in &needed_off {
-                        tag(&mut b, 1, *o as u64);
+                    // DT_NEEDED in the order given: all first, or one between each of the tags
+                    // that follow and the rest behind them
+                    let mut pending = needed_off.iter();
+                    if d.needed_spread {
+                        if let Some(o) = soname_off {
+                            tag(&mut b, 14, o as u64);
+                        }
+                        tag(&mut b, 4, chunk_addr(&find(Ck::Hash)?));
+                        if let Some(o) = pending.next() {
+                            tag(&mut b, 1, *o as u64);
+                        }
+                        tag(&mut b, 5, chunk_addr(&find(Ck::Dynstr)?));
+                        if let Some(o) = pending.next() {
+                            tag(&mut b, 1, *o as u64);
+                        }
+                        tag(&mut b, 6, chunk_addr(&find(Ck::Dynsym)?));
+                        tag(&mut b, 10, dynstr.bytes.len() as u64);
+                        tag(&mut b, 11, symsz);
+                        for o in pending {
+                            tag(&mut b, 1, *o as u64);
+                        }
+                    } else {
+                        for o in pending {
+                            tag(&mut b, 1, *o as u64);
+                        }
+                        if let Some(o) = soname_off {
+                            tag(&mut b, 14, o as u64);
+                        }
+                        tag(&mut b, 4, chunk_addr(&find(Ck::Hash)?));
+                        tag(&mut b, 5, chunk_addr(&find(Ck::Dynstr)?));
+                        tag(&mut b, 6, chunk_addr(&find(Ck::Dynsym)?));
+                        tag(&mut b, 10, dynstr.bytes.len() as u64);
+                        tag(&mut b, 11, symsz);
                     }
-                    if let Some(o) = soname_off {
-                        tag(&mut b, 14, o as u64);
-                    }
-                    tag(&mut b, 4, chunk_addr(&find(Ck::Hash)?));
-                    tag(&mut b, 5, chunk_addr(&find(Ck::Dynstr)?));
-                    tag(&mut b, 6, chunk_addr(&find(Ck::Dynsym)?));
-                    tag(&mut b, 10, dynstr.bytes.len() as u64);
-                    tag(&mut b, 11, symsz);
                     if d.extra_tags {
                         tag(&mut b, 21, 0); // DT_DEBUG
                     }
